@@ -111,7 +111,11 @@ pub trait Check: Sync {
     fn run_case(&self, lane: &str, src: &mut Src, rep: &mut Report) -> Result<(), Failure>;
     /// Deterministic extra work (exhaustive enumeration, self tests).  Returns extra evidence
     /// merged into coverage, or a failure.
-    fn extra(&self, _tier: Tier, _stats: &mut Stats) -> Result<Value, Failure> { Ok(json!({})) }
+    /// `known(sig)` is true when `sig` is an open known finding: count it with
+    /// `stats.note_known(sig)` and keep going instead of returning it.
+    fn extra(&self, _tier: Tier, _stats: &mut Stats, _known: &dyn Fn(&str) -> bool, _threads: usize) -> Result<Value, Failure> {
+        Ok(json!({}))
+    }
 }
 
 #[derive(Default)]
@@ -159,6 +163,7 @@ impl Stats {
         self.inconclusive += o.inconclusive;
     }
     pub fn count_nontrivial<T: std::hash::Hash>(&mut self, t: &T) { self.nontrivial.insert(fp(t)); }
+    pub fn note_known(&mut self, sig: &str) { *self.excluded_known.entry(sig.to_string()).or_insert(0) += 1; }
 }
 
 thread_local! {
@@ -297,7 +302,8 @@ pub fn run_check(chk: &dyn Check, cfg: &RunCfg) -> i32 {
     }
 
     // ---- deterministic extra work
-    let extra = match guard("extra", || chk.extra(cfg.tier, &mut total)).and_then(|x| x) {
+    let known_fn = |s: &str| open_sigs.contains(s);
+    let extra = match guard("extra", || chk.extra(cfg.tier, &mut total, &known_fn, cfg.threads)).and_then(|x| x) {
         Ok(v) => v,
         Err(fl) => {
             if open_sigs.contains(&fl.sig) {
